@@ -71,8 +71,9 @@ class Prop(PropBase):
             pairs, cmap = G.gen_context(rng)
             avail = [k for k, _ in pairs]
             p_fmt = rng.choice([0.0, 0.15, 0.4])
+            keygen = G.formattable_keygen(avail, cmap) if rng.random() < 0.5 else None
             val = G.gen_tree(rng, 3, lambda g: G.gen_leaf_fmt(g, avail, cmap, p_fmt) if p_fmt
-                             else G.gen_scalar(g))
+                             else G.gen_scalar(g), keygen)
             if rng.random() < 0.25:
                 shared = {'share': 1, 'v': G.gen_tree(rng, 2, lambda g: G.gen_leaf_fmt(g, avail, cmap, 0.3))}
                 val = {'l': [shared, val, shared]} if rng.random() < 0.5 else \
@@ -134,6 +135,11 @@ class Prop(PropBase):
                 out.append(fail('container-types', f'container types {obs["types_in"]} became {obs["types_out"]}'))
             if not obs['leaf_identity']:
                 out.append(fail('leaf-identity', 'a non-string leaf came back as a different object'))
+        if res[0] == 'ok':
+            cmap = {k: x for k, x in case['ctx']}
+            bad = unformatted_keys(strip_share(case['val']), res[1], cmap)
+            if bad:
+                out.append(fail('key-not-formatted', f'mapping key {bad[0]!r} should have been formatted to {bad[1]!r}; result keys: {bad[2]!r}'))
         plain = strip_share(case['val'])
         if not G.has_brace(plain):
             if not (res[0] == 'ok' and pv.pv_equal(res[1], plain)):
@@ -164,3 +170,55 @@ def _nodes(o):
     elif isinstance(o, (list, tuple)):
         for x in o:
             yield from _nodes(x)
+
+
+def expected_key(k, cmap):
+    """the formatted form of a key built only from plain text and '{ident}' references to
+    plain scalars (str.format is the oracle); None when the key is outside that fragment."""
+    import string
+    if isinstance(k, str):
+        if '{' not in k and '}' not in k:
+            return k
+        try:
+            items = list(string.Formatter().parse(k))
+        except ValueError:
+            return None
+        for lit, name, spec, conv in items:
+            if name is None:
+                continue
+            if spec or conv or not name.isidentifier() or name not in cmap:
+                return None
+            v = cmap[name]
+            if isinstance(v, bool) or not isinstance(v, (str, int)) or G.has_brace(v):
+                return None
+        if len(items) == 1 and items[0][1] is not None and not items[0][0]:
+            return cmap[items[0][1]]
+        return k.format(**{n: cmap[n] for _, n, _, _ in items if n is not None})
+    if isinstance(k, dict) and 't' in k:
+        xs = [expected_key(x, cmap) for x in k['t']]
+        return None if any(x is None and y is not None for x, y in zip(xs, k['t'])) else {'t': xs}
+    if isinstance(k, (int,)) and not isinstance(k, bool):
+        return k
+    return None
+
+
+def unformatted_keys(inp, out, cmap):
+    """walk input and result in parallel; report a key whose expected formatted form is absent."""
+    if isinstance(inp, dict) and 'd' in inp and isinstance(out, dict) and 'd' in out:
+        out_keys = [k for k, _ in out['d']]
+        for k, v in inp['d']:
+            ek = expected_key(k, cmap)
+            if ek is not None and not any(pv.pv_equal(ek, ok) for ok in out_keys):
+                return (k, ek, out_keys)
+        if len(inp['d']) == len(out['d']):
+            for (_, v), (_, w) in zip(inp['d'], out['d']):
+                r = unformatted_keys(v, w, cmap)
+                if r:
+                    return r
+    for t in ('l', 't'):
+        if isinstance(inp, dict) and t in inp and isinstance(out, dict) and t in out and len(inp[t]) == len(out[t]):
+            for v, w in zip(inp[t], out[t]):
+                r = unformatted_keys(v, w, cmap)
+                if r:
+                    return r
+    return None
